@@ -8,7 +8,7 @@ PR1, PR2 = 'bugfix/TEST-1', 'bugfix/TEST-2'
 
 
 def spec(name, layout, dst1, dst2, queue=True, skip=False, depth=None, **kw):
-    s = {'driver': 'flow', 'name': name,
+    s = {'driver': 'flow_faults', 'faults': 'c06', 'name': name,
          'config': {'layout': layout, 'queue': queue, 'skip_queue': skip,
                     'options': BYPASS_REVIEW},
          'init': [['open', PR1, dst1], ['open', PR2, dst2],
@@ -58,7 +58,9 @@ def extend(cr, tier, seed, workers):
         'merge every integration commit must be SUCCESSFUL in the host ' \
         'table; BuildNotStarted/BuildInProgress jobs must not comment; ' \
         'non-trivial = transitions on which the gate let a pull request ' \
-        'through'
+        'through; on each such transition the job is re-run with a commit ' \
+        'pushed to the source branch right after Bert-E\'s clone (the ' \
+        'stale tip must be noticed)'
     cov['exhaustive'] = bool(cov.get('exhaustive')) and \
         bool(cr2.coverage.get('exhaustive'))
     cr.violations += cr2.violations
